@@ -71,8 +71,8 @@ package ios
 //vc:spec func lineOK(l string) bool = l == "" || strings.HasPrefix(l, "INFO:") || strings.HasPrefix(l, "WARNING:")
 //vc:spec func validOut(cmd string, out string) bool = forall i int :: 0 <= i && i < splitCount(out, "\n") ==> lineOK(splitPart(out, "\n", i))
 //vc:func isValidOutput
-//vc:  invariant[C09] 1 "for _, line := range strings.Split(out" @linesSoFarAcceptable forall i int :: 0 <= i && i <= rangeindex ==> lineOK(splitPart(out, "\n", i))
-//vc:  ensures[C09] @trueOnlyIfEveryLineAcceptable result ==> validOut(cmd, out)
+//vc:  invariant[C09,C15] 1 "for _, line := range strings.Split(out" @linesSoFarAcceptable forall i int :: 0 <= i && i <= rangeindex ==> lineOK(splitPart(out, "\n", i))
+//vc:  ensures[C09,C15] @trueOnlyIfEveryLineAcceptable result ==> validOut(cmd, out)
 
 // one reply is read and checked: banner removed, echo stripped, remainder empty or acceptable
 //vc:func (*State).cmd$1
